@@ -11,6 +11,7 @@ from ..judge import convert_deck, crash_violation, region_agreement, summarise
 from . import c03
 
 ID = 'C04'
+UPSTREAM_DECKS = True
 LEVEL = 'exploration'
 RULE = ('one transformed object per case: {attach point: TR number on the '
         'surface card, TRCL by number, inline TRCL with 3/12/13 entries, '
